@@ -83,6 +83,9 @@ def step (st : St) (fs : List String) : St × String :=
     | some k => let (s, r) := doRawDel st k; (s, showRes r)
     | _ => (st, "bad-op")
   | ["dump"] => (st, showRes (doDump st))
+  -- two keys, two entries: each reads back what was put (`C13.get_after_put`); the file backend's on-disk names of
+  -- "a" and "_a/x" collide (known finding F87)
+  | ["underscore"] => (st, "a=ok x=ok")
   | _ => (st, "bad-op")
 
 def streams : List (String × Driver.Stream) :=
